@@ -26,9 +26,14 @@ Definition base_align (l : loader) : N :=
   match l with LMem => 64 | LMmap | LMap => 4096 | LFull => 1 end.
 
 (* the loaders that keep a region deserialize eps-copy from it *)
+(* load_mem refuses up front a type whose native alignment exceeds the 64 bytes it can guarantee
+   (align_of::<Self>() > align_of::<MemoryAlignment>()) *)
+Definition mem_precheck (t : ty) : bool := 64 <? align_of t.
+
 Definition load (l : loader) (base : N) (h : hdr) (t : ty) (file : list byte) : res (val * list byte * N) :=
   match l with
   | LFull => deser_full_top h t file
+  | LMem => if mem_precheck t then Err AlignmentError else deser_eps_top base h t (region l file)
   | _ => deser_eps_top base h t (region l file)
   end.
 
